@@ -188,6 +188,9 @@ pub struct Connection {
     highest_space: SpaceId,
     /// 1-RTT keys used prior to a key update
     prev_crypto: Option<PrevCrypto>,
+    /// Lowest packet number that can have been sent with the keys of the current key phase, once a
+    /// key update has taken place
+    key_phase_first_pn: Option<u64>,
     /// 1-RTT keys to be used for the next key update
     ///
     /// These are generated in advance to prevent timing attacks and/or DoS by third-party attackers
@@ -322,6 +325,7 @@ impl Connection {
             spaces: [initial_space, PacketSpace::new(now), PacketSpace::new(now)],
             highest_space: SpaceId::Initial,
             prev_crypto: None,
+            key_phase_first_pn: None,
             next_crypto: None,
             accepted_0rtt: false,
             permit_idle_reset: true,
@@ -1375,6 +1379,19 @@ impl Connection {
             // are illegal.
             debug!("ignoring redundant forced key update");
             return;
+        }
+        if let Some(first) = self.key_phase_first_pn {
+            // RFC 9001 section 6.1: a subsequent key update MUST NOT be initiated before a packet
+            // sent with the keys of the current key phase has been acknowledged; otherwise the peer
+            // may never have seen the current keys and cannot follow
+            let acked = self.spaces[SpaceId::Data].largest_acked_packet;
+            if acked.is_none_or(|pn| pn < first) {
+                debug!("ignoring forced key update before the previous one is confirmed");
+                // Elicit that acknowledgement: an endpoint that only ever sends ACKs would otherwise
+                // never be able to perform the routine update `PacketBuilder::new` asks for
+                self.ping();
+                return;
+            }
         }
         self.update_keys(None, false);
     }
@@ -3794,6 +3811,7 @@ impl Connection {
             update_unacked: remote,
         });
         self.key_phase = !self.key_phase;
+        self.key_phase_first_pn = Some(self.spaces[SpaceId::Data].next_packet_number);
     }
 
     fn peer_supports_ack_frequency(&self) -> bool {
